@@ -260,6 +260,22 @@ fn scenario(cfg: &RunCfg, saturate: bool) -> Outcome {
                 format!("client {ci}: {ready_runs} requests were handled but {} complete responses arrived", finals.len()),
             );
         }
+        // A request is in flight from the moment its handler is first called - for an
+        // upload that is the call that asks for the body. Every request whose handler had
+        // been called when the permit was revoked must still get its complete response
+        // (the clients send their whole bodies and keep reading).
+        let started_before: std::collections::BTreeSet<&str> = mine.iter().filter(|c| c.seq < revoked_at).map(|c| c.path.as_str()).collect();
+        if finals.len() < started_before.len() {
+            return Outcome::fail(
+                "C13.inflight_complete",
+                format!(
+                    "client {ci}: the handler had been called for {} request(s) ({:?}) when the permit was revoked, but only {} complete response(s) arrived: an upload in progress at revocation was abandoned",
+                    started_before.len(),
+                    started_before,
+                    finals.len()
+                ),
+            );
+        }
         for (i, r) in finals.iter().enumerate() {
             let want = &reqs[i].plan.resp;
             if r.code != want.code || r.body != want.body() {
